@@ -600,7 +600,7 @@ func reportBroken(id, tier string, seed int, msg string, t0 time.Time) int {
 	js, _ := json.MarshalIndent(map[string]interface{}{"property": id, "obligation": "#binding", "error": msg}, "", " ")
 	os.WriteFile(path, js, 0o644)
 	fmt.Printf("VIOLATION property=%s replay=%s obligation=#binding %s no-failing-input-found\n", id, path, strings.ReplaceAll(msg, "\n", " "))
-	ev := map[string]interface{}{"property_id": id, "tier": tier, "seed": seed, "level": "proof",
+	ev := map[string]interface{}{"property_id": id, "tier": tier, "seed": seed, "level": manifestLevel(id),
 		"coverage": map[string]interface{}{"obligations": 1, "discharged": 0, "checker_cmd": "govc check " + id, "trusted_base": []string{}, "evaluations": 1, "distinct_nontrivial": 0, "explanation": msg},
 		"wall_s": time.Since(t0).Seconds(), "violations": 1}
 	if !noEvidence {
@@ -712,7 +712,7 @@ func writeEvidence(c *Ctx, id, tier string, seed int, reports []*fnReport, all, 
 		"bounded": append([]string{}, boundedNotes...),
 		"structural": append([]string{}, structuralNotes...), "structural_functions_checked": structuralChecked, "structural_functions": append([]string{}, structuralFns...),
 	}
-	ev := map[string]interface{}{"property_id": id, "tier": tier, "seed": seed, "level": "proof", "coverage": cov,
+	ev := map[string]interface{}{"property_id": id, "tier": tier, "seed": seed, "level": manifestLevel(id), "coverage": cov,
 		"assumptions": assumptions, "wall_s": wall, "violations": len(violations)}
 	if noEvidence {
 		return
@@ -720,4 +720,30 @@ func writeEvidence(c *Ctx, id, tier string, seed int, reports []*fnReport, all, 
 	os.MkdirAll(filepath.Join(verifDir, "evidence"), 0o755)
 	js, _ := json.MarshalIndent(ev, "", " ")
 	os.WriteFile(filepath.Join(verifDir, "evidence", id+".json"), js, 0o644)
+}
+
+
+// manifestLevel: the level category the MANIFEST claims for this property (evidence must carry the same one).
+func manifestLevel(id string) string {
+	data, err := os.ReadFile(filepath.Join(verifDir, "MANIFEST.json"))
+	if err != nil {
+		return "proof"
+	}
+	var m struct {
+		Checks []struct {
+			PropertyID   string `json:"property_id"`
+			LevelClaimed struct {
+				Category string `json:"category"`
+			} `json:"level_claimed"`
+		} `json:"checks"`
+	}
+	if json.Unmarshal(data, &m) != nil {
+		return "proof"
+	}
+	for _, c := range m.Checks {
+		if c.PropertyID == id && c.LevelClaimed.Category != "" {
+			return c.LevelClaimed.Category
+		}
+	}
+	return "proof"
 }
